@@ -191,3 +191,404 @@ theorem eX_handlerBody (c : ECtx W HS) (hg : HostGood c.host c.Good c.WInv) (hob
       exact hrel.goodCur x (List.mem_of_mem_tail hx)
 
 end Ptera.Sem
+
+namespace Ptera.Sem
+open Ptera.Py
+
+variable {W HS : Type}
+
+/-! ## binding every name of an import -/
+
+theorem eM_forM_setLoc (c : ECtx W HS) : (l : List (String × Val)) →
+    (∀ p ∈ l, c.local p.1 ∧ c.Good p.2) →
+    EM c (fun _ => True) (l.forM fun (x, v) => (setLoc x (some v) : M W HS Unit)) (l.forM fun (x, v) => setLoc x (some v))
+  | [], _ => by simp only [List.forM_nil]; exact eM_pure c _ _ trivial
+  | (x, v) :: l, h => by
+    simp only [List.forM_cons]
+    exact eM_bind c (eM_setLoc c x v (h (x, v) (by simp)).1 (h (x, v) (by simp)).2) fun _ _ =>
+      eM_forM_setLoc c l fun p hp => h p (by simp [hp])
+
+theorem keeps_forM_setLoc : (l : List (String × Val)) →
+    Keeps (l.forM fun (x, v) => (setLoc x (some v) : M W HS Unit))
+  | [] => by simp only [List.forM_nil]; exact keeps_of_locPres (locPres_pure _)
+  | (x, v) :: l => by
+    simp only [List.forM_cons]
+    exact keeps_bind (keeps_setLoc x v) fun _ => keeps_forM_setLoc l
+
+theorem binds_forM_setLoc : (xs : List String) → (vs : List Val) → xs.length ≤ vs.length →
+    Binds ((xs.zip vs).forM fun (x, v) => (setLoc x (some v) : M W HS Unit)) xs
+  | [], _, _ => binds_nil _
+  | x :: xs, [], h => by simp at h
+  | x :: xs, v :: vs, h => by
+    simp only [List.zip_cons_cons, List.forM_cons]
+    have := binds_bind (m := (setLoc x (some v) : M W HS Unit)) (binds_setLoc x v)
+      (fun _ => keeps_forM_setLoc (xs.zip vs))
+      (fun _ => binds_forM_setLoc xs vs (by simpa using h))
+    simpa using this
+
+theorem padVals_length (n : Nat) (vals : List Val) : n ≤ (padVals n vals).length := by
+  simp only [padVals, List.length_append, List.length_replicate]
+  omega
+
+theorem padVals_good (c : ECtx W HS) (hg : HostGood c.host c.Good c.WInv) (n : Nat) (vals : List Val)
+    (h : ∀ v ∈ vals, c.Good v) : ∀ v ∈ padVals n vals, c.Good v := by
+  intro v hv
+  simp only [padVals, List.mem_append, List.mem_replicate] at hv
+  rcases hv with hv | ⟨_, rfl⟩
+  · exact h v hv
+  · exact hg.noneV
+
+/-! ## statements -/
+
+theorem good_lookups (c : ECtx W HS) (hg : HostGood c.host c.Good c.WInv) {sr sp : St W HS} (h : ERel c [] sr sp)
+    (loads : List String) (hu : ∀ x ∈ loads, isUser x = true) :
+    (loads.map fun x => (x, lookupV c.envR sr x)) = (loads.map fun x => (x, lookupV c.envP sp x))
+    ∧ ∀ p ∈ (loads.map fun x => (x, lookupV c.envP sp x)), ∀ v, p.2 = some v → c.Good v := by
+  constructor
+  · apply List.map_congr_left
+    intro x _
+    rw [h.look x (by simp)]
+  · intro p hp v hv
+    simp only [List.mem_map] at hp
+    obtain ⟨x, hx, rfl⟩ := hp
+    simp only at hv
+    unfold lookupV at hv
+    split at hv
+    · exact h.goodLoc x v hv
+    · exact hg.glob x v (hu x hx) hv
+
+mutual
+theorem eraseS (c : ECtx W HS) (hg : HostGood c.host c.Good c.WInv) (hobs : Observer c.host) :
+    (s : Stmt) → coreS s = true → noDeclS s = true → (∀ x ∈ s.assigned, c.local x) →
+    EX c (execS c.envR c.fuel s) (execS c.envP c.fuel s)
+  | .assign ts v, h, _, hs => by
+    simp only [coreS, Bool.and_eq_true] at h
+    match ts, h, hs with
+    | [t], h, hs =>
+      simp only [Stmt.assigned, Target.namesL, Target.storesL, List.append_nil, List.mem_append] at hs
+      simp only [execS, assignTs_single]
+      exact eX_stepM c (eraseE c hg hobs v h.2 (fun x hx => hs x (Or.inr hx))) fun u hu =>
+        eX_stepM c (erase_assignT c hg hobs t h.1 (fun x hx => hs x (Or.inl (by simpa using hx))) none u hu)
+          fun _ _ => eX_done c _ trivial
+    | [], h, _ => simp at h
+    | _ :: _ :: _, h, _ => simp at h
+  | .augassign t op v, h, _, hs => by
+    simp only [coreS, Bool.and_eq_true] at h
+    simp only [Stmt.assigned, List.mem_append] at hs
+    have hv := eraseE c hg hobs v h.2 (fun x hx => hs x (Or.inr hx))
+    cases t with
+    | name x =>
+      have hu : isUser x = true := by simpa [coreAugT] using h.1
+      have hl : c.local x := hs x (by simp [Target.names])
+      simp only [execS]
+      refine eX_stepM c (GA := fun _ => True) ?_ fun _ _ => eX_done c _ trivial
+      have e : ∀ env : Env W HS, (do
+          let a ← lookup env x
+          let b ← evalE env v
+          let cc ← liftW (env.host.binop op a b)
+          setLoc x (some cc)
+          postBind1 env x) = (lookup env x >>= fun a => evalE env v >>= fun b =>
+            liftW (env.host.binop op a b) >>= fun cc => (setLoc x (some cc) >>= fun _ => postBind1 env x)) := by
+        intro env; rfl
+      rw [e c.envR, e c.envP]
+      exact eM_bind c (eM_lookup c hg x hu) fun a ha => eM_bind c hv fun b hb =>
+        eM_bind c (eM_liftW c _ _ fun w hw => hg.binop op a b w ha hb hw) fun cc hcc =>
+          erase_setPost1 c hg hobs x cc hl hcc
+    | attr e a =>
+      simp only [coreAugT, Bool.and_eq_true] at h
+      have he := eraseE c hg hobs e h.1.1 (fun x hx => hs x (Or.inl (by simp [Target.names, Target.stores, hx])))
+      simp only [execS]
+      refine eX_stepM c (GA := fun _ => True) ?_ fun _ _ => eX_done c _ trivial
+      exact eM_bind c he fun o ho => eM_bind c (eM_liftW c _ _ fun w hw => hg.getattr o a w ho hw) fun cur hcur =>
+        eM_bind c hv fun b hb => eM_bind c (eM_liftW c _ _ fun w hw => hg.binop op cur b w hcur hb hw) fun r hr =>
+          eM_liftW c _ _ fun w hw => hg.setattr o a r w ho hr hw
+    | sub e i =>
+      simp only [coreAugT, Bool.and_eq_true] at h
+      have he := eraseE c hg hobs e h.1.1.1.1 (fun x hx => hs x (Or.inl (by simp [Target.names, Target.stores, hx])))
+      have hi := eraseE c hg hobs i h.1.1.2 (fun x hx => hs x (Or.inl (by simp [Target.names, Target.stores, hx])))
+      simp only [execS]
+      refine eX_stepM c (GA := fun _ => True) ?_ fun _ _ => eX_done c _ trivial
+      exact eM_bind c he fun o ho => eM_bind c hi fun k hk =>
+        eM_bind c (eM_liftW c _ _ fun w hw => hg.getitem o k w ho hk hw) fun cur hcur =>
+          eM_bind c hv fun b hb => eM_bind c (eM_liftW c _ _ fun w hw => hg.binop op cur b w hcur hb hw) fun r hr =>
+            eM_liftW c _ _ fun w hw => hg.setitem o k r w ho hk hr hw
+    | tuple ts => simp [coreAugT] at h
+    | list ts => simp [coreAugT] at h
+    | starred t => simp [coreAugT] at h
+  | .annassign t ann v, h, hnd, hs => by
+    simp only [coreS, Bool.and_eq_true] at h
+    cases t with
+    | name x =>
+      have hu : isUser x = true := by simpa using h.1
+      simp only [Stmt.assigned, List.mem_append] at hs
+      have hl : c.local x := hs x (by simp [Target.names])
+      cases v with
+      | some e =>
+        have he := eraseE c hg hobs e (by simpa [coreOptE] using h.2) (fun x hx => hs x (Or.inr (by simpa [optStores] using hx)))
+        simp only [execS]
+        exact eX_stepM c he fun u hu' =>
+          eX_stepM c (erase_assignT c hg hobs (.name x) (by simpa [coreAssignT] using hu)
+            (fun y hy => by simp [Target.names, Target.stores] at hy; subst hy; exact hl) (some ann) u hu')
+            fun _ _ => eX_done c _ trivial
+      | none => simp [noDeclS] at hnd
+    | tuple ts => simp at h
+    | list ts => simp at h
+    | starred t => simp at h
+    | attr e a => simp at h
+    | sub e i => simp at h
+  | .expr e, h, _, hs => by
+    simp only [coreS] at h
+    simp only [execS]
+    exact eX_stepM c (eraseE c hg hobs e h (by simpa [Stmt.assigned] using hs)) fun _ _ => eX_done c _ trivial
+  | .ret v, h, _, hs => by
+    simp only [coreS] at h
+    simp only [execS]
+    cases v with
+    | none =>
+      simp only [pure_bind_M]
+      exact eX_stepM c (eM_hook c hg hobs "#value" none .noneV false .noneV hg.noneV) fun r hr => eX_done c _ hr
+    | some e =>
+      simp only
+      refine eX_stepM c ?_ fun r hr => eX_done c _ hr
+      exact eM_bind c (eraseE c hg hobs e (by simpa [coreOptE] using h) (by simpa [Stmt.assigned, optStores] using hs))
+        fun x hx => eM_hook c hg hobs "#value" none x false .noneV hx
+  | .pass, _, _, _ => by simp only [execS]; exact eX_done c _ trivial
+  | .brk, _, _, _ => by simp only [execS]; exact eX_done c _ trivial
+  | .cont, _, _, _ => by simp only [execS]; exact eX_done c _ trivial
+  | .raise e, h, _, hs => by
+    simp only [coreS] at h
+    cases e with
+    | none =>
+      simp only [execS]
+      intro sr sp hr
+      have hh : c.envR.host = c.envP.host := rfl
+      dsimp only
+      rw [hr.cur, hh]
+      cases hc : sp.cur with
+      | nil => exact ⟨rfl, Or.inr hg.noActiveExc, hr⟩
+      | cons e0 rest => exact ⟨rfl, Or.inr (hr.goodCur e0 (by rw [hc]; simp)), hr⟩
+    | some e =>
+      simp only [execS]
+      exact eX_stepM c (eraseE c hg hobs e (by simpa [coreOptE] using h) (by simpa [Stmt.assigned, optStores] using hs))
+        fun v hv => eX_done c _ (Or.inr hv)
+  | .ite cnd b o, h, hnd, hs => by
+    simp only [coreS, Bool.and_eq_true] at h
+    simp only [noDeclS, Bool.and_eq_true] at hnd
+    simp only [Stmt.assigned, List.mem_append] at hs
+    have ihb := eraseB c hg hobs b h.1.2 hnd.1 (fun x hx => hs x (Or.inl (Or.inr hx)))
+    have iho := eraseB c hg hobs o h.2 hnd.2 (fun x hx => hs x (Or.inr hx))
+    simp only [execS]
+    refine eX_stepM c (eM_truthyE c hg hobs cnd h.1.1 (fun x hx => hs x (Or.inl (Or.inl hx)))) fun t _ => ?_
+    cases t
+    · simpa using iho
+    · simpa using ihb
+  | .while cnd b o, h, hnd, hs => by
+    simp only [coreS, Bool.and_eq_true] at h
+    simp only [noDeclS, Bool.and_eq_true] at hnd
+    simp only [Stmt.assigned, List.mem_append] at hs
+    have ihb := eraseB c hg hobs b h.1.2 hnd.1 (fun x hx => hs x (Or.inl (Or.inr hx)))
+    have iho := eraseB c hg hobs o h.2 hnd.2 (fun x hx => hs x (Or.inr hx))
+    simp only [execS]
+    exact eX_whileLoop c c.fuel (eM_truthyE c hg hobs cnd h.1.1 (fun x hx => hs x (Or.inl (Or.inl hx)))) ihb iho
+  | .for t it b o, h, hnd, hs => by
+    simp only [coreS, Bool.and_eq_true] at h
+    simp only [noDeclS, Bool.and_eq_true] at hnd
+    simp only [Stmt.assigned, List.mem_append] at hs
+    have ihb := eraseB c hg hobs b h.1.2 hnd.1 (fun x hx => hs x (Or.inl (Or.inr hx)))
+    have iho := eraseB c hg hobs o h.2 hnd.2 (fun x hx => hs x (Or.inr hx))
+    have hln : ∀ x ∈ t.names, c.local x := fun x hx => hs x (Or.inl (Or.inl (Or.inl (Or.inl hx))))
+    simp only [execS]
+    refine eX_stepM c (GA := fun items => ∀ v ∈ items, c.Good v) ?_ fun items hitems => ?_
+    · exact eM_bind c (eraseE c hg hobs it h.1.1.2 (fun x hx => hs x (Or.inl (Or.inl (Or.inr hx))))) fun v hv =>
+        eM_liftW c _ _ fun w hw => hg.iter v w hv hw
+    · refine eX_forLoop c items (fun item hitem => ?_) hitems iho
+      -- one iteration: Python stores the item, then the markers, the re-binding, the body
+      intro sr sp hr
+      have hst := eraseT c hg hobs t h.1.1.1 (fun x hx => hs x (by
+        simp only [List.mem_append] at hx
+        rcases hx with hx | hx
+        · exact Or.inl (Or.inl (Or.inl (Or.inl hx)))
+        · exact Or.inl (Or.inl (Or.inl (Or.inr hx))))) item hitem sr sp hr
+      have hbnd := binds_storeT c.envR t h.1.1.1 item sr
+      unfold stepM
+      rcases hmr : storeT c.envR t item sr with ⟨rr, sr1⟩
+      rcases hmp : storeT c.envP t item sp with ⟨rp, sp1⟩
+      rw [hmr, hmp] at hst
+      rw [hmr] at hbnd
+      simp only at hst hbnd
+      obtain ⟨hre, hok, hrel⟩ := hst
+      subst hre
+      cases rr with
+      | err e => exact ⟨rfl, hok, hrel⟩
+      | ok u =>
+        simp only
+        refine eXp_tryFinally c ?_ (eX_stepM c (eM_hookMetas c hg hobs none _) fun _ _ => eX_done c _ trivial)
+        -- markers (only the handler state changes on the reference side), then the re-binding
+        have hm := eM_hookMetas c hg hobs none ((loopVars t).map ("#loop_" ++ ·)) sr1 sp1 hrel
+        have hlp := locPres_hookMetas c.envR none ((loopVars t).map ("#loop_" ++ ·)) sr1
+        refine eXp_stepM c (GA := fun _ => True) ?_ fun _ _ => ihb
+        unfold EMp
+        rw [postBind_envP, bind_def_M, bind_def_M]
+        rcases hhr : hookMetas c.envR none ((loopVars t).map ("#loop_" ++ ·)) sr1 with ⟨r1, sr2⟩
+        rcases hhp : hookMetas c.envP none ((loopVars t).map ("#loop_" ++ ·)) sp1 with ⟨r2, sp2⟩
+        rw [hhr, hhp] at hm
+        rw [hhr] at hlp
+        simp only at hm hlp
+        obtain ⟨hre2, hok2, hrel2⟩ := hm
+        subst hre2
+        cases r1 with
+        | err e => exact ⟨rfl, hok2, hrel2⟩
+        | ok u2 =>
+          simp only
+          obtain ⟨g1, g2, _⟩ := postBind_observer c hg hobs t.names hln sr2 sp2 hrel2
+            (fun x hx => by rw [hlp]; exact hbnd u rfl x hx)
+          exact ⟨g1, trivial, g2⟩
+  | .try b hds o f, h, hnd, hs => by
+    simp only [coreS, Bool.and_eq_true] at h
+    simp only [noDeclS, Bool.and_eq_true] at hnd
+    simp only [Stmt.assigned, List.mem_append] at hs
+    have ihb := eraseB c hg hobs b h.1.1.1 hnd.1.1.1 (fun x hx => hs x (Or.inl (Or.inl (Or.inl hx))))
+    have ihh := fun e he => eraseHL c hg hobs hds h.1.1.2 hnd.1.1.2 (fun x hx => hs x (Or.inl (Or.inl (Or.inr hx)))) e he
+    have iho := eraseB c hg hobs o h.1.2 hnd.1.2 (fun x hx => hs x (Or.inl (Or.inr hx)))
+    have ihf := eraseB c hg hobs f h.2 hnd.2 (fun x hx => hs x (Or.inr hx))
+    simp only [execS]
+    exact eX_tryFinally c (eX_tryExcept c ihb ihh iho) ihf
+  | .with ctx t b, h, hnd, hs => by
+    simp only [coreS, Bool.and_eq_true] at h
+    simp only [noDeclS] at hnd
+    simp only [Stmt.assigned, List.mem_append] at hs
+    have ihb := eraseB c hg hobs b h.2 hnd (fun x hx => hs x (Or.inr hx))
+    simp only [execS]
+    refine eX_stepM c (GA := fun p => c.Good p.1 ∧ c.Good p.2) ?_ fun p hp => ?_
+    · exact eM_bind c (eraseE c hg hobs ctx h.1.1 (fun x hx => hs x (Or.inl (Or.inl hx)))) fun cm hcm =>
+        eM_bind c (eM_liftW c _ _ fun w hw => hg.enter cm w hcm hw) fun v hv => eM_pure c _ (cm, v) ⟨hcm, hv⟩
+    · obtain ⟨cm, v⟩ := p
+      refine eX_withBlock c hg cm hp.1 ?_
+      cases t with
+      | none =>
+        simp only [stepM_pure]
+        exact ihb
+      | some t =>
+        have ht : coreT t = true := by simpa [coreOptT] using h.1.2
+        simp only
+        refine eX_stepM c (GA := fun _ => True) ?_ fun _ _ => ihb
+        exact erase_thenPost c hg hobs t.names (fun x hx => hs x (Or.inl (Or.inr (by simp [hx]))))
+          (eraseT c hg hobs t ht (fun x hx => hs x (Or.inl (Or.inr (by simpa using hx)))) v hp.2)
+          (binds_storeT c.envR t ht v)
+  | .defn name src loads, h, _, hs => by
+    simp only [coreS, Bool.and_eq_true, List.all_eq_true] at h
+    have hl : c.local name := hs name (by simp [Stmt.assigned])
+    simp only [execS]
+    intro sr sp hr
+    obtain ⟨hl1, hl2⟩ := good_lookups c hg hr loads h.2
+    have key : EX c
+        (stepM (liftW (c.envR.host.bindStmt src (loads.map fun x => (x, lookupV c.envP sp x)))) fun vals =>
+          stepM (do setLoc name (some (vals.headD .noneV)); postBind1 c.envR name) fun _ => done .normal)
+        (stepM (liftW (c.envP.host.bindStmt src (loads.map fun x => (x, lookupV c.envP sp x)))) fun vals =>
+          stepM (do setLoc name (some (vals.headD .noneV)); postBind1 c.envP name) fun _ => done .normal) := by
+      refine eX_stepM c (GA := fun vals => ∀ v ∈ vals, c.Good v)
+        (eM_liftW c _ _ fun w hw => hg.bindStmt src _ w hl2 hw) fun vals hvals => ?_
+      refine eX_stepM c (erase_setPost1 c hg hobs name _ hl ?_) fun _ _ => eX_done c _ trivial
+      cases vals with
+      | nil => exact hg.noneV
+      | cons v0 _ => exact hvals v0 (by simp)
+    have := key sr sp hr
+    simp only [hl1]
+    exact this
+  | .cls name src loads, h, _, hs => by
+    simp only [coreS, Bool.and_eq_true, List.all_eq_true] at h
+    have hl : c.local name := hs name (by simp [Stmt.assigned])
+    simp only [execS]
+    intro sr sp hr
+    obtain ⟨hl1, hl2⟩ := good_lookups c hg hr loads h.2
+    have key : EX c
+        (stepM (liftW (c.envR.host.bindStmt src (loads.map fun x => (x, lookupV c.envP sp x)))) fun vals =>
+          stepM (do setLoc name (some (vals.headD .noneV)); postBind1 c.envR name) fun _ => done .normal)
+        (stepM (liftW (c.envP.host.bindStmt src (loads.map fun x => (x, lookupV c.envP sp x)))) fun vals =>
+          stepM (do setLoc name (some (vals.headD .noneV)); postBind1 c.envP name) fun _ => done .normal) := by
+      refine eX_stepM c (GA := fun vals => ∀ v ∈ vals, c.Good v)
+        (eM_liftW c _ _ fun w hw => hg.bindStmt src _ w hl2 hw) fun vals hvals => ?_
+      refine eX_stepM c (erase_setPost1 c hg hobs name _ hl ?_) fun _ _ => eX_done c _ trivial
+      cases vals with
+      | nil => exact hg.noneV
+      | cons v0 _ => exact hvals v0 (by simp)
+    have := key sr sp hr
+    simp only [hl1]
+    exact this
+  | .imp bound src, h, _, hs => by
+    simp only [coreS, List.all_eq_true] at h
+    have hl : ∀ x ∈ bound, c.local x := fun x hx => hs x (by simpa [Stmt.assigned] using hx)
+    simp only [execS]
+    refine eX_stepM c (GA := fun vals => ∀ v ∈ vals, c.Good v)
+      (eM_liftW c _ _ fun w hw => hg.bindStmt src _ w (fun p hp => by simp at hp) hw) fun vals hvals => ?_
+    refine eX_stepM c (GA := fun _ => True) ?_ fun _ _ => eX_done c _ trivial
+    exact erase_thenPost c hg hobs bound hl
+      (eM_forM_setLoc c _ fun p hp => ⟨hl p.1 (List.of_mem_zip hp).1, padVals_good c hg _ _ hvals p.2 (List.of_mem_zip hp).2⟩)
+      (binds_forM_setLoc bound _ (padVals_length _ _))
+  | .glob _, h, _, _ => by simp [coreS] at h
+  | .nonloc _, h, _, _ => by simp [coreS] at h
+  | .opaque .., h, _, _ => by simp [coreS] at h
+theorem eraseB (c : ECtx W HS) (hg : HostGood c.host c.Good c.WInv) (hobs : Observer c.host) :
+    (ss : List Stmt) → coreB ss = true → noDeclB ss = true → (∀ x ∈ Stmt.assignedL ss, c.local x) →
+    EX c (execB c.envR c.fuel ss) (execB c.envP c.fuel ss)
+  | [], _, _, _ => by simp only [execB_nil]; exact eX_done c _ trivial
+  | s :: ss, h, hnd, hs => by
+    simp only [coreB, Bool.and_eq_true] at h
+    simp only [noDeclB, Bool.and_eq_true] at hnd
+    simp only [Stmt.assignedL, List.mem_append] at hs
+    simp only [execB_cons]
+    exact eX_seqX c (eraseS c hg hobs s h.1 hnd.1 (fun x hx => hs x (Or.inl hx)))
+      (eraseB c hg hobs ss h.2 hnd.2 (fun x hx => hs x (Or.inr hx)))
+theorem eraseHL (c : ECtx W HS) (hg : HostGood c.host c.Good c.WInv) (hobs : Observer c.host) :
+    (hds : List Handler) → coreHL hds = true → noDeclHL hds = true → (∀ x ∈ Handler.assignedL hds, c.local x) →
+    ∀ e, c.Good e → EX c (execHL c.envR c.fuel hds e) (execHL c.envP c.fuel hds e)
+  | [], _, _, _, e, he => by simp only [execHL]; exact eX_done c _ (Or.inr he)
+  | .mk typ name body :: hds, h, hnd, hs, e, he => by
+    simp only [coreHL, coreH, Bool.and_eq_true] at h
+    simp only [noDeclHL, noDeclH, Bool.and_eq_true] at hnd
+    simp only [Handler.assignedL, Handler.assigned, List.mem_append] at hs
+    have ihb := eraseB c hg hobs body h.1.2 hnd.1 (fun x hx => hs x (Or.inl (Or.inr hx)))
+    have ihh := eraseHL c hg hobs hds h.2 hnd.2 (fun x hx => hs x (Or.inr hx)) e he
+    have hh2 : c.envR.host = c.envP.host := rfl
+    have hte : ∀ te, typ = some te → coreE te = true := by
+      intro te ht; subst ht
+      have := h.1.1.1
+      simpa [coreOptE] using this.1
+    cases name with
+    | none =>
+      have hbody := eX_handlerBody c hg hobs e he none (fun n hn => by simp at hn) ihb
+      simp only at hbody
+      cases typ with
+      | none =>
+        simp only [execHL]
+        exact hbody
+      | some te =>
+        simp only [execHL]
+        refine eX_stepM c (eraseE c hg hobs te (hte te rfl)
+          (fun x hx => hs x (Or.inl (Or.inl (Or.inl (by simpa [optStores] using hx)))))) fun tv _ => ?_
+        rw [hh2]
+        split
+        · exact hbody
+        · exact ihh
+    | some nm =>
+      have hbody := eX_handlerBody c hg hobs e he (some nm)
+        (fun n hn => by
+          have hnm : nm = n := by injection hn
+          subst hnm
+          exact hs nm (Or.inl (Or.inl (Or.inr (by simp))))) ihb
+      simp only at hbody
+      cases typ with
+      | none =>
+        simp only [execHL]
+        exact hbody
+      | some te =>
+        simp only [execHL]
+        refine eX_stepM c (eraseE c hg hobs te (hte te rfl)
+          (fun x hx => hs x (Or.inl (Or.inl (Or.inl (by simpa [optStores] using hx)))))) fun tv _ => ?_
+        rw [hh2]
+        split
+        · exact hbody
+        · exact ihh
+end
+
+end Ptera.Sem
